@@ -1051,9 +1051,34 @@ def static_ties(fc):
             'of a function taking them as arguments runs one with the configuration of the other (Model.Config.cfg_eqb compares every field)'
         )
     body = ast.parse(textwrap.dedent(inspect.getsource(CS))).body[0]
-    own = [n.name for n in body.body if isinstance(n, ast.FunctionDef) and n.name in ('__eq__', '__ne__', '__hash__', '__lt__', '__le__')]
-    if own:
-        raise lib.Tie(f'ConfigState defines {own} by hand: the model takes the dataclass-generated comparison of every field')
+    own = [n for n in body.body if isinstance(n, ast.FunctionDef) and n.name in ('__eq__', '__ne__', '__hash__', '__lt__', '__le__')]
+    for fn in own:
+        # a hand-written __eq__ is accepted only in the form of fix 73c43c7: an isinstance guard returning NotImplemented,
+        # then ONE return of an and-chain that mentions self.<f> and other.<f> for EVERY dataclass field (so that it is
+        # still "all fields compared": arrays / operators inside the options through equinox.tree_equal)
+        ok = fn.name == '__eq__'
+        if ok:
+            stmts = [n for n in fn.body if not (isinstance(n, ast.Expr) and isinstance(n.value, ast.Constant))]
+            rets = [n for n in stmts if isinstance(n, ast.Return)]
+            guards = [n for n in stmts if isinstance(n, ast.If)]
+            ok = len(rets) == 1 and len(guards) <= 1 and len(stmts) == len(rets) + len(guards)
+            if ok and guards:
+                g = guards[0]
+                ok = (not g.orelse and len(g.body) == 1 and isinstance(g.body[0], ast.Return)
+                      and isinstance(g.body[0].value, ast.Name) and g.body[0].value.id == 'NotImplemented')
+            if ok:
+                val = rets[0].value
+                ok = isinstance(val, ast.BoolOp) and isinstance(val.op, ast.And)
+                if ok:
+                    seen = {}
+                    for node in ast.walk(val):
+                        if isinstance(node, ast.Attribute) and isinstance(node.value, ast.Name) and node.value.id in ('self', 'other'):
+                            seen.setdefault(node.attr, set()).add(node.value.id)
+                    names = {f.name for f in dataclasses.fields(CS)}
+                    ok = all(seen.get(n) == {'self', 'other'} for n in names) and not any(isinstance(n, (ast.Or, ast.Not)) for n in ast.walk(val))
+        if not ok:
+            raise lib.Tie(f'ConfigState defines {fn.name} by hand in a form the model does not cover: Model.Config.cfg_eqb compares EVERY field '
+                          '(accepted: an isinstance guard + one `return` of an and-chain over self.<f> / other.<f> for every dataclass field)')  # fmt: skip
     fld = {f.name: f for f in dataclasses.fields(core.InverseOperator)}.get('config')
     if fld is None or not fld.metadata.get('static'):
         raise lib.Tie('InverseOperator.config is no longer a static equinox field: the model keeps the configuration in the tree structure')
